@@ -752,3 +752,34 @@ func aofWriterSites(c *Ctx, key string) []fnCall {
 	}
 	return out
 }
+
+// valueSite is a place where a value is produced: the expression itself where it is used,
+// or - when the expression is a call of a known literal (an inlined helper) - each return of
+// that literal. Rules that decide "value X is chosen exactly when condition C holds" read the
+// path facts at these sites.
+type valueSite struct {
+	g   *Fn
+	at  ast.Node
+	val ast.Expr
+}
+
+func valueSites(fn *Fn, at ast.Node, val ast.Expr) []valueSite {
+	g := fn.enclosing(at)
+	if lc, ok := ast.Unparen(val).(*ast.CallExpr); ok {
+		if lit := g.litOfCallee(lc); lit != nil {
+			h := g.enclosing(lit).Closure(lit)
+			var out []valueSite
+			for _, r := range h.Returns() {
+				if len(r.Results) == 1 {
+					out = append(out, valueSites(h, r, r.Results[0])...)
+				} else {
+					return []valueSite{{g, at, val}}
+				}
+			}
+			if len(out) > 0 {
+				return out
+			}
+		}
+	}
+	return []valueSite{{g, at, val}}
+}
